@@ -186,6 +186,7 @@ def run_hyp(pid, tier, seed):
     emod = importlib.import_module(p["module"])
     if hasattr(emod, "extra_phase"):
         extra = emod.extra_phase(pid, tier, seed)
+    if extra:
         m["evaluations"] += extra["evaluations"]
         m["fails"].extend(f for f in extra["fails"] if f["sig"] not in known_sigs)
         for k, v in extra["classes"].items():
@@ -229,9 +230,10 @@ def run_hyp(pid, tier, seed):
     }
     if extra:
         cov["distinct_nontrivial"] += extra["nontrivial"]
-        cov["exhaustive"] = not violations
-        cov["exhaustive_scope"] = extra["exhaustive_scope"] + " (the Hypothesis part is sampling)"
-        cov["enumerated_cases"] = extra["evaluations"]
+        cov["extra_phase_cases"] = extra["evaluations"]
+        if extra.get("exhaustive_scope"):
+            cov["exhaustive"] = not violations
+            cov["exhaustive_scope"] = extra["exhaustive_scope"] + " (the Hypothesis part is sampling)"
     vc.write_evidence(pid, tier, seed, "exploration", cov, t.s(), len(violations), p["assume"] + vc.tool_versions())
     print("%s %s: %d cases, %d distinct non-trivial, %d violation(s), %.1fs" % (
         pid, tier, cov["evaluations"], cov["distinct_nontrivial"], len(violations), t.s()))
